@@ -14,6 +14,7 @@ TRUSTED = ["C01: PARTIAL — the quantitative 'small fraction of the original bi
 def correspondence(res, tier, seed):
     debiasers.k5(res, tier, seed, tag="k5c01")
     debiasers.k21(res, tier, seed, tag="k21c01")      # ISIMIP step 3 (the trend is centred: C01_isimip_trend_centred)
+    debiasers.k22(res, tier, seed, tag="k22c01")
     res.rule = ("K5 as for C03; search: eight debiasers x window mode x bias sign/size, additive (tas) and multiplicative (pr: LS/DC) settings, "
                 "whole-year spans; distinct/non-trivial = distinct (debiaser, variable, window mode) classes")
 
